@@ -1102,3 +1102,96 @@ class _Einsum(Base):
         sz = {c: U.sub_size(d) for c, d in case["letters"].items()}
         arrs = [_vals_np(case["ops"][k]["data"]).reshape([sz[c] for c in case["ops"][k]["sub"]]) for k in keys]
         return np.einsum(sscr, *arrs, x.reshape([sz[c] for c in case["xsub"]])).reshape(-1)
+
+
+_DIAGVALS = [1.0, 2.0, -1.0, 0.5, 4.0, -2.0, 0.25]
+_DIAGVALS_C = [1j, -1j, 1 + 1j, 1 - 1j, 2j, -1 + 1j, 0.5 + 0.5j]   # Gaussian numbers with an exact dyadic inverse
+
+
+@register("DiagonalOperator")
+class _Diagonal(Base):
+    dtypes = "fc"
+
+    def gen(self, rng, quick):
+        doms = U.gen_doms(rng, maxsize=36)
+        n = len(doms)
+        r = rng.random()
+        if r < 0.3:
+            spaces = None
+            sp = list(range(n))
+        else:
+            k = rng.randint(1, n)
+            sp = rng.sample(range(n), k)           # any order: the constructor pairs diagonal.domain[i] with domain[spaces[i]]
+            if rng.random() < 0.5:
+                sp = sorted(sp)
+            spaces = sp[0] if (len(sp) == 1 and rng.random() < 0.4) else sp
+        cplx = rng.random() < 0.4
+        m = int(np.prod([U.sub_size(doms[s]) for s in sp]))
+        vals = [rng.choice(_DIAGVALS_C if (cplx and rng.random() < 0.7) else _DIAGVALS) for _ in range(m)]
+        return dict(cls=self.name, doms=doms, spaces=spaces, d=_vals_json([complex(v) if cplx else v for v in vals]),
+                    dtype="c" if cplx else _pick_dtype(rng, "fc"))
+
+    def malformed(self, rng):
+        c = self.gen(rng, True)
+        c["spaces"] = [len(c["doms"])]
+        return c
+
+    def _sp(self, case):
+        return _resolve_spaces(case["spaces"], len(case["doms"]))
+
+    def build(self, case):
+        ift = _ift()
+        dom = U.build_domtuple(case["doms"])
+        sp = self._sp(case)
+        if any(not (0 <= s < len(dom)) for s in sp):
+            dd = ift.DomainTuple.make(dom[0])
+            return ift.DiagonalOperator(ift.full(dd, 1.), dom, case["spaces"])
+        dd = ift.DomainTuple.make(tuple(dom[s] for s in sp))
+        diag = ift.makeField(dd, _vals_np(case["d"]).reshape(dd.shape))
+        spaces = case["spaces"]
+        if isinstance(spaces, list):
+            spaces = tuple(spaces)
+        return ift.DiagonalOperator(diag, dom, spaces)
+
+    def line(self, case):
+        doms = _model_doms(case)
+        d = _vals_np(case["d"])
+        sp = self._sp(case)
+        return dict(cls=self.name, doms=doms, spaces=case["spaces"],
+                    dsizes=[U.sub_size(doms[s]) for s in sp if 0 <= s < len(doms)],
+                    d=[U.cq(v) for v in d], dinv=[U.cq(1 / v) for v in d])
+
+    def ref(self, case, x):
+        doms = case["doms"]
+        sizes = _sizes(doms)
+        sp = self._sp(case)
+        d = _vals_np(case["d"]).reshape([sizes[s] for s in sp])
+        # documented: pixel-wise product, the diagonal's i-th sub-domain lives on domain[spaces[i]]
+        letters = "abcdefg"
+        full = letters[:len(sizes)]
+        return np.einsum("".join(full[s] for s in sp) + "," + full + "->" + full, d, x.reshape(sizes)).reshape(-1)
+
+
+@register("ScalingOperator")
+class _Scaling(Base):
+    dtypes = "fc"
+
+    def gen(self, rng, quick):
+        cplx = rng.random() < 0.4
+        f = rng.choice(_DIAGVALS_C) if cplx else rng.choice(_DIAGVALS)
+        return dict(cls=self.name, doms=U.gen_doms(rng, maxsize=24), f=[f.real, f.imag] if cplx else f,
+                    dtype="c" if cplx else _pick_dtype(rng, "fc"))
+
+    def _f(self, case):
+        f = case["f"]
+        return complex(*f) if isinstance(f, list) else float(f)
+
+    def build(self, case):
+        return _ift().ScalingOperator(U.build_domtuple(case["doms"]), self._f(case))
+
+    def line(self, case):
+        f = self._f(case)
+        return dict(cls=self.name, n=int(np.prod(_sizes(_model_doms(case)))), f=U.cq(f), finv=U.cq(1 / f))
+
+    def ref(self, case, x):
+        return self._f(case) * x
